@@ -75,6 +75,17 @@ def run(ctx):
     widen.check_signext(ctx, ["src/util/xxhash.c", "src/metadata/bloom_filter.c"])
 
     # ---- which static-function parameters receive filter bits (one level through call sites)
+    # helpers that return a pointer into the bits (`return filter->data + idx * 32;`)
+    bits_returning = set()
+    for f in fns.values():
+        if "*" in (f.ret or "") and f.static:
+            czf = Canon(f)
+            if any(r.c and r.c[0] is not None and has_data_member(czf(r.c[0])) for r in f.returns()):
+                bits_returning.add(f.name)
+
+    def from_bits_helper(t):
+        return any(isinstance(s, tuple) and s[0] == "call" and isinstance(s[1], tuple) and s[1][0] == "func" and s[1][1] in bits_returning
+                   for s in subtrees(t))
     bits_params = {}  # fn name -> set(param index)
     for f in fns.values():
         cz = Canon(f)
@@ -83,12 +94,13 @@ def run(ctx):
             if tgt is None:
                 continue
             for idx, a in enumerate(call.args()):
-                if has_data_member(cz(a)):
+                ta = cz(a)
+                if has_data_member(ta) or from_bits_helper(ta):
                     bits_params.setdefault(tgt.name, set()).add(idx)
 
     def is_bits(f, cz, expr):
         t = cz(expr)
-        if has_data_member(t):
+        if has_data_member(t) or from_bits_helper(t):
             return True
         for s in subtrees(t):
             if isinstance(s, tuple) and s[0] == "param" and s[1] in bits_params.get(f.name, ()):
